@@ -943,6 +943,46 @@ C05_Finalize ==
             /\ \E i \in 1..Len(cfg) : cfg[i].sel = GinMacroSel /\ cfg[i].scope = v[3]]_vars
 
 ------------------------------------------------------------------------------
+(* C07: the operative record *)
+OperAt(op, scope, sel, p) == { r \in op : r.scope = scope /\ r.sel = sel /\ r.param = p }
+
+\* after a successful top-level call of a probe: every parameter Gin supplied (binding or literal
+\* default of a configurable parameter) is recorded with the value used; parameters the caller
+\* supplied keep whatever earlier calls recorded; the called pair has a section
+C07_StepHolds(c, call, okB, opB, okA, opA) ==
+  LET sn == SuppliedNames(c, call)
+      names == NamedParams(c) \cup { cfg[i].param : i \in { j \in 1..Len(cfg) : cfg[j].sel = c.sel } }
+  IN /\ [scope |-> CurScope, sel |-> c.sel] \in okA
+     /\ okB \subseteq okA /\ \A r \in opB : \E q \in opA : q.scope = r.scope /\ q.sel = r.sel /\ q.param = r.param
+     /\ \A p \in names :
+          LET app == Applicable(cfg, c.sel, p, CurScope)
+              sup == IF app # {} THEN <<TRUE, Longest(app).val>>
+                     ELSE IF HasDefault(c, p) /\ Allowed(c, p) /\ Representable(DefaultOf(c, p))
+                          THEN <<TRUE, DefaultOf(c, p)>> ELSE <<FALSE>>
+          IN IF p \notin sn /\ sup[1]
+             THEN OperAt(opA, CurScope, c.sel, p) = {[scope |-> CurScope, sel |-> c.sel, param |-> p, val |-> sup[2]]}
+             ELSE OperAt(opA, CurScope, c.sel, p) = OperAt(opB, CurScope, c.sel, p)
+
+C07_Step ==
+  [][(out'.op = "Call" /\ out'.status = "ok" /\ ConfBySel(out'.sel).body = "record") =>
+        C07_StepHolds(ConfBySel(out'.sel), [pargs |-> out'.pargs, kw |-> out'.ckw], okeys, oper, okeys', oper')]_vars
+
+\* sections exist only for pairs that were invoked: every new key comes from this step's evaluation log
+\* (probes) or is a macro / constant / singleton lookup
+C07_Sections ==
+  [][(out'.op = "Call") =>
+        \A k \in okeys' \ okeys :
+           \/ \E i \in 1..Len(out'.evals) : out'.evals[i].sel = k.sel /\ out'.evals[i].scope = k.scope
+           \/ k.sel[1] = "gin"
+           \/ out'.status # "ok"]_vars
+
+\* never-called configurables and non-configurable parameters never appear
+C07_Never ==
+  \A r \in oper :
+    /\ [scope |-> r.scope, sel |-> r.sel] \in okeys
+    /\ LET c == ConfBySel(r.sel) IN Allowed(c, r.param) /\ MightHave(c, r.param)
+
+------------------------------------------------------------------------------
 (* state predicates over `out`, as action properties (so that VIEWs may drop `out`) *)
 C05_ResolveA == [][C05_Resolve']_vars
 C11_AcceptA == [][C11_Accept']_vars
